@@ -128,9 +128,58 @@ func Validate(v interface{}) *ValidateRecorder {
 	vr.recordJSONSchema(result)
 
 	val := reflect.ValueOf(v)
+	if path := findNilElement(val, ""); path != "" {
+		vr.recordSystem(fmt.Errorf("%s: null is not allowed as an element of a list or map", path))
+		return vr
+	}
 	traverseGo(&val, nil, vr.record)
 
 	return vr
+}
+
+// findNilElement returns the path of the first nil pointer that is an element of a slice or a
+// value of a map (YAML `- null` / `key: null`), or "" if there is none. Such elements are trimmed
+// before the JSON schema validation and skipped by traverseGo, so they would reach the runtime.
+func findNilElement(val reflect.Value, path string) string {
+	switch val.Kind() {
+	case reflect.Ptr, reflect.Interface:
+		if val.IsNil() {
+			return ""
+		}
+		return findNilElement(val.Elem(), path)
+	case reflect.Struct:
+		t := val.Type()
+		for i := 0; i < t.NumField(); i++ {
+			if t.Field(i).PkgPath != "" {
+				continue
+			}
+			if p := findNilElement(val.Field(i), path+"."+t.Field(i).Name); p != "" {
+				return p
+			}
+		}
+	case reflect.Slice, reflect.Array:
+		for i := 0; i < val.Len(); i++ {
+			e := val.Index(i)
+			if (e.Kind() == reflect.Ptr || e.Kind() == reflect.Map) && e.IsNil() {
+				return fmt.Sprintf("%s[%d]", path, i)
+			}
+			if p := findNilElement(e, fmt.Sprintf("%s[%d]", path, i)); p != "" {
+				return p
+			}
+		}
+	case reflect.Map:
+		iter := val.MapRange()
+		for iter.Next() {
+			e := iter.Value()
+			if e.Kind() == reflect.Ptr && e.IsNil() {
+				return fmt.Sprintf("%s[%v]", path, iter.Key())
+			}
+			if p := findNilElement(e, fmt.Sprintf("%s[%v]", path, iter.Key())); p != "" {
+				return p
+			}
+		}
+	}
+	return ""
 }
 
 func getSchemaMeta(t reflect.Type) (*schemaMeta, error) {
